@@ -56,6 +56,17 @@ func init() {
 		Exhaustive:  func(tier string) bool { return tier == "thorough" },
 		Gen: func(tier string, seed int64) []ev.Case {
 			var cs []ev.Case
+			if tier == "thorough" {
+				// further key material, bodies and random forgery contents
+				for k := 1; k <= 8; k++ {
+					for su := 0; su < 9; su++ {
+						for _, cmd := range []string{"guid", "devid", "chassis"} {
+							cs = append(cs, ev.MkCase("batch", c04Batch{Suite: su, Cmd: cmd, What: "catalogue", Seed: seed + int64(k)*7919}))
+							cs = append(cs, ev.MkCase("batch", c04Batch{Suite: su, Cmd: cmd, What: "flips/1", Seed: seed + int64(k)*7919}))
+						}
+					}
+				}
+			}
 			for su := 0; su < 9; su++ {
 				for _, cmd := range []string{"guid", "devid", "chassis"} {
 					cs = append(cs, ev.MkCase("batch", c04Batch{Suite: su, Cmd: cmd, What: "catalogue", Seed: seed}))
